@@ -48,6 +48,26 @@ let valid_ent idmax = function
   | Some e -> valid_name 50 (coq_to_bytes e.e_type) && valid_name idmax (coq_to_bytes e.e_id)
 let valid_act = function None -> true | Some a -> valid_name 50 (coq_to_bytes a.a_name)
 
+(* Cross-check of extraction: with ORACLE_DUMP=<file> the values the EXTRACTED model computes for
+   every Evaluation / Evaluations / SubjectSearch / ResourceSearch call (checksums of the mapped
+   native request incl. the merged context, the evaluation outcome code, the batch outcome codes
+   under a total table-driven Check) are appended to that file; bin/coqreplay_c32.py recomputes
+   the same numbers inside Coq with vm_compute. *)
+let dump_chan = match Sys.getenv_opt "ORACLE_DUMP" with
+  | Some p when p <> "" -> Some (open_out_gen [Open_append; Open_creat] 0o644 p)
+  | _ -> None
+let bsum (s : string) = let t = ref 0 in String.iter (fun c -> t := !t + Char.code c) s; !t
+let csum (b : bytes) = bsum (coq_to_bytes b)
+let ctx_cs (c : string pstruct option) : int list =
+  match c with
+  | None -> [0; 0]
+  | Some l ->
+    let seen = Hashtbl.create 8 in
+    let l = List.filter (fun (k, _) -> if Hashtbl.mem seen k then false else (Hashtbl.add seen k (); true)) l in
+    [List.length l; List.fold_left (fun acc (k, v) -> acc + csum k * 31 + bsum v) 0 l]
+let q_cs (q : string check_req) =
+  [csum q.q_user; List.length q.q_user; csum q.q_relation; csum q.q_object; List.length q.q_object; csum q.q_model] @ ctx_cs q.q_context
+
 let f _id vs =
   match vs with
   | [I "1"; latest; checks; lists; calls] ->
@@ -102,6 +122,56 @@ let f _id vs =
                                            canon_ctx q.lo_context; canon_model (coq_to_bytes q.lo_model)] in
       match Hashtbl.find_opt ltbl key with Some (`Objects r) -> r | _ -> raise (Missing ("ListObjects " ^ key)) in
     let sd e = n_of_int e.direct and sb e = n_of_int e.batch in
+    (* ---- dump (before any comparison) ---- *)
+    (match dump_chan with
+     | None -> ()
+     | Some ch ->
+       let check_t q = try check q with Missing _ -> CErr { code = 999; direct = 0; batch = 0 } in
+       let dsd e = n_of_int e.direct and dsb e = n_of_int (e.direct + 1000) in
+       List.iter (fun cv ->
+         match as_list cv with
+         | [kind; _; header; sv; rv; av; ctxv; itemsv; semv; _; _] ->
+           let h = opt header as_cbytes in
+           let s = dec_ent sv and r = dec_ent rv and a = dec_act av and c = dec_props ctxv in
+           let nums =
+             match as_int kind with
+             | 0 ->
+               let b = match build_check_request [] (model_id_from_header h) s r a c with
+                 | Inl MissingSubject -> [0; 1] | Inl MissingResource -> [0; 2] | Inl MissingAction -> [0; 3]
+                 | Inr q -> 1 :: q_cs q in
+               let e = match evaluation check_t { ev_store = []; ev_header = h; ev_subject = s; ev_resource = r; ev_action = a; ev_context = c } with
+                 | EvDecision b -> if b then 1 else 0
+                 | EvInvalidArg -> 2
+                 | EvError e -> 10 + e.code in
+               100 :: b @ [e]
+             | 1 ->
+               let items = List.map (fun iv ->
+                 match as_list iv with
+                 | [is; ir; ia; ic] -> { i_subject = dec_ent is; i_resource = dec_ent ir; i_action = dec_act ia; i_context = dec_props ic }
+                 | _ -> failwith "item") (as_list itemsv) in
+               let top = { es_store = []; es_header = h; es_subject = s; es_resource = r; es_action = a; es_context = c;
+                           es_items = items; es_options = (match opt semv as_int with None -> None | Some n -> Some (n_of_int n)) } in
+               (match evaluations check_t (fun qs -> Inr (List.map check_t qs)) dsd dsb top with
+                | EsOk l -> 101 :: 200 :: List.length l :: List.map (function RDecision b -> if b then 1 else 0 | RDenyErr st -> 2 + int_of_n st) l
+                | EsInvalidArg -> [101; 201]
+                | EsError e -> [101; 202; e.code])
+             | 2 ->
+               (match s, r, a with
+                | Some s', Some r', Some a' ->
+                  let q = subject_search_map { ss_store = []; ss_header = h; ss_resource = r'; ss_action = a';
+                                               ss_subject = { f_type = s'.e_type; f_props = s'.e_props }; ss_context = c } in
+                  [102; csum q.lu_obj_type; csum q.lu_obj_id; csum q.lu_relation; csum q.lu_filter_type; csum q.lu_model] @ ctx_cs q.lu_context
+                | _ -> [102; 0])
+             | 3 ->
+               (match s, r, a with
+                | Some s', Some r', Some a' ->
+                  let q = resource_search_map { rs_store = []; rs_header = h; rs_subject = s'; rs_action = a';
+                                                rs_resource = { f_type = r'.e_type; f_props = r'.e_props }; rs_context = c } in
+                  [103; csum q.lo_user; csum q.lo_relation; csum q.lo_type; csum q.lo_model] @ ctx_cs q.lo_context
+                | _ -> [103; 0])
+             | _ -> [104] in
+           output_string ch (String.concat " " (_id :: List.map string_of_int nums) ^ "\n")
+         | _ -> ()) (as_list calls));
     let props = ref [] and diffs = ref [] in
     let idx = ref 0 in
     List.iter (fun cv ->
